@@ -6,4 +6,5 @@ open CJ.Drv
 def main : IO Unit := runDriver fun
   | "covert" :: args => Covert.handle args
   | "csched" :: args => Covert.handleSched args
+  | "creload" :: args => Covert.handleReload args
   | _ => none
